@@ -127,6 +127,20 @@ uint64_t cmb_random_sfc64(void)
 }
 #endif
 
+/* the engine runs the library with a configurable page size (option pagesize): give the native run the same one */
+#include <unistd.h>
+#include <dlfcn.h>
+long sysconf(int name)
+{
+    static long (*real)(int);
+    if (name == _SC_PAGESIZE) {
+        const char *e = getenv("SYM_PAGESIZE");
+        if (e != NULL && atol(e) > 0) return atol(e);
+    }
+    if (real == NULL) real = (long (*)(int))dlsym(RTLD_NEXT, "sysconf");
+    return real(name);
+}
+
 int main(void)
 {
     open_in();
